@@ -311,6 +311,22 @@ func (s *Sim) runFinale() {
 		}
 		return
 	}
+	if s.k.TTL {
+		// let the deadlines that are still pending pass, comparing the replicas
+		// at every instant on the way (outside the expiry windows)
+		for i := 0; i < 6 && s.res.Diverge == nil; i++ {
+			last, ok := s.lastNearDeadline(40 * time.Second)
+			if !ok {
+				break
+			}
+			target := last.Add(ttlWindow + 300*time.Millisecond)
+			s.probe("ttl-finale-waited-past-deadline")
+			s.settle(func() bool { return !time.Now().Before(target) || s.res.Diverge != nil }, target.Sub(time.Now())+2*time.Second)
+		}
+		if !s.settle(s.converged, budget) {
+			return
+		}
+	}
 	s.res.Voters = map[int][]uint64{}
 	for _, ns := range s.serving() {
 		if rn := ns.inc.vn.RaftNode(); rn != nil && rn.Node != nil {
@@ -323,6 +339,9 @@ func (s *Sim) runFinale() {
 			s.res.Voters[ns.id] = vs
 		}
 		s.res.FinalDumps[ns.id] = dumpAll(ns.inc.vn.Manager())
+		if s.k.TTL {
+			s.res.FinalDumps[ns.id] = withoutTTLKeys(s.res.FinalDumps[ns.id])
+		}
 		s.res.FinalIdx[ns.id] = ns.view.applied
 		s.trace("final n%d applied=%d dump=%016x", ns.id, ns.view.applied, hashLines(s.res.FinalDumps[ns.id]))
 	}
@@ -361,6 +380,11 @@ func (s *Sim) runReference() {
 	conn := newConn("ref", nil)
 	var kept []Cmd
 	for _, cmd := range prog.Cmds {
+		if cmd.SleepMS > 0 {
+			time.Sleep(time.Duration(cmd.SleepMS) * time.Millisecond)
+			kept = append(kept, cmd)
+			continue
+		}
 		var v rd.Value
 		panicked := false
 		func() {
@@ -395,6 +419,9 @@ func (s *Sim) runReference() {
 	s.res.RefSkipped = len(prog.Cmds) - len(kept)
 	prog.Cmds = kept
 	s.res.RefDump = dumpAll(mgr)
+	if s.k.TTL {
+		s.res.RefDump = withoutTTLKeys(s.res.RefDump)
+	}
 }
 
 func (s *Sim) attemptTimeout() time.Duration {
